@@ -1,4 +1,4 @@
-From Coq Require Import ZArith List Bool String.
+From Coq Require Import ZArith List Bool String Lia.
 From Falcon.lib Require Import PyStr.
 From Falcon.C20 Require Import Model Spec.
 Import ListNotations.
@@ -312,4 +312,29 @@ Theorem oracle_sound c rq h s : oracle c rq s h (process_response true c rq h s)
 Proof.
   unfold oracle. rewrite fails1_ok, fails2_ok, fails3_ok, fails4_ok, fails5_ok, fails6_ok.
   reflexivity.
+Qed.
+
+(* ---- cors_enable keeps exactly one policy instance, whatever is added later *)
+Lemma add_middleware_one u b u' :
+  count_cors u = 1%nat -> add_middleware true u b = Some u' -> count_cors u' = 1%nat.
+Proof.
+  unfold add_middleware. intros H. destruct b as [|x b]; [intros E; injection E as <-; exact H|].
+  cbn [andb]. destruct (Nat.ltb 1 (count_cors (u ++ x :: b))) eqn:L; [discriminate|].
+  intros E. injection E as <-. apply PeanoNat.Nat.ltb_ge in L.
+  unfold count_cors in *. rewrite filter_app, app_length in *. lia.
+Qed.
+
+Theorem cors_enable_single_instance mw u batches :
+  app_init true mw = Some u -> count_cors (add_all true u batches) = 1%nat.
+Proof.
+  intros I. assert (H : count_cors u = 1%nat).
+  { unfold app_init, add_middleware in I. destruct (mw ++ [true]) as [|x l] eqn:E.
+    - destruct mw; discriminate.
+    - cbn [andb app] in I. destruct (Nat.ltb 1 (count_cors (x :: l))) eqn:L; [discriminate|].
+      injection I as <-. apply PeanoNat.Nat.ltb_ge in L. rewrite <- E in *.
+      unfold count_cors in *. rewrite filter_app, app_length in *. simpl in *. lia. }
+  clear I. revert u H. induction batches as [|b tl IH]; intros u H; simpl; [exact H|].
+  destruct (add_middleware true u b) as [u'|] eqn:E.
+  - apply IH. eapply add_middleware_one; eauto.
+  - apply IH. exact H.
 Qed.
